@@ -1,6 +1,6 @@
 (* Props/C09.v — C09: the chunk codec over a faulty storage (src/extsort/chunk.rs: dump, ExternalChunk::next).
    Only statements, closed by [exact]; proofs live in ChunkProofs.v. *)
-From BedV Require Import Base AlgebraModel ExtSortModel ChunkProofs.
+From BedV Require Import Base AlgebraModel ExtSortModel ChunkProofs BufModel BufProofs.
 
 (* bincode DefaultOptions on Vec<u8>: deserialize (serialize v) = v *)
 Theorem C09_codec : forall v, N.of_nat (length v) < 2 ^ 64 -> de_blob (ser_blob v) = Some v.
@@ -81,3 +81,67 @@ Proof.
   split; [repeat constructor; vm_compute; reflexivity|].
   eexists. split; vm_compute; reflexivity.
 Qed.
+
+(* ---- merged from C09b.v ---- *)
+(* BufWriter::write_all returning Ok has accepted the whole buffer into the logical stream
+   (stored bytes, then buffered bytes), and the buffer stays within its capacity *)
+Theorem C09_buffered_write_all_ok : forall w d w', bw_ok w -> bw_write_all w d = (w', None) ->
+  bw_content w' = bw_content w ++ d /\ bw_ok w'.
+Proof. exact bw_write_all_ok. Qed.
+Print Assumptions C09_buffered_write_all_ok.
+
+(* dump through a BufWriter followed by flush, returning Ok, has stored exactly the frames of the items *)
+Theorem C09_buffered_dump_ok : forall plan items st,
+  dump_buffered plan items = (st, None) -> w_stored st = frames items.
+Proof. exact dump_buffered_ok. Qed.
+Print Assumptions C09_buffered_dump_ok.
+
+(* it returns an error only if the storage answered a hard error or Ok(0) *)
+Theorem C09_buffered_dump_err_only_if_fault : forall plan items st e,
+  dump_buffered plan items = (st, Some e) -> has_hard_w plan.
+Proof. exact dump_buffered_err_only_if_fault. Qed.
+Print Assumptions C09_buffered_dump_err_only_if_fault.
+
+Theorem C09_buffered_dump_no_fault_ok : forall plan items,
+  (forall op, In op plan -> ~ hard_w op) -> exists st, dump_buffered plan items = (st, None).
+Proof. exact dump_buffered_no_fault_ok. Qed.
+Print Assumptions C09_buffered_dump_no_fault_ok.
+
+(* reading well-formed chunk data through a BufReader: exactly the items, or a prefix of them followed by
+   one I/O error, and then only if the storage answered a hard error *)
+Theorem C09_buffered_read_frames : forall items rplan, Forall blob_ok items ->
+  chunk_read_buffered (frames items) rplan = map CItem items \/
+  (exists j, (j <= length items)%nat /\
+     chunk_read_buffered (frames items) rplan = map CItem (firstn j items) ++ [CIoErr] /\ In RErr rplan).
+Proof. exact read_frames_buffered. Qed.
+Print Assumptions C09_buffered_read_frames.
+
+Theorem C09_buffered_end_to_end : forall items wplan rplan st e,
+  Forall blob_ok items -> dump_buffered wplan items = (st, e) ->
+  e <> None \/
+  chunk_read_buffered (w_stored st) rplan = map CItem items \/
+  (exists j, (j <= length items)%nat /\
+     chunk_read_buffered (w_stored st) rplan = map CItem (firstn j items) ++ [CIoErr] /\ In RErr rplan).
+Proof. exact end_to_end_buffered. Qed.
+Print Assumptions C09_buffered_end_to_end.
+
+(* finding F8 behind BufWriter, machine-checked: with the payload passed to BufWriter::write and the count
+   ignored (the code as found), dump and flush both return Ok and the stored bytes are not the frames *)
+Theorem C09_buffered_orig_refuted : exists items plan w',
+  dump_bw_orig (mkBW [] (mkW [] plan)) items = (w', None) /\
+  exists w'', bw_flush w' = (w'', None) /\ w_stored (bw_inner w'') <> frames items.
+Proof. exact dump_bw_orig_refuted. Qed.
+Print Assumptions C09_buffered_orig_refuted.
+
+(* non-vacuity: items of sizes 0, 3, 300 through short counts and interruptions on both sides *)
+Example C09_buffered_nonvacuous :
+  let items := [[]; [1; 2; 3]; repeat 9 300%nat] in
+  Forall blob_ok items /\
+  (exists st, dump_buffered [WAccept 2; WIntr; WAccept 1] items = (st, None) /\ w_stored st = frames items) /\
+  chunk_read_buffered (frames items) [RGive 1; RIntr; RGive 3] = map CItem items.
+Proof.
+  split; [repeat constructor; vm_compute; reflexivity|]. split.
+  - eexists. split; [vm_compute; reflexivity | vm_compute; reflexivity].
+  - vm_compute. reflexivity.
+Qed.
+Print Assumptions C09_buffered_nonvacuous.
